@@ -465,3 +465,65 @@ def replay_case(ctx, payload):
     for f in sub.oracle_failures:
         print('still failing:', f['clause'], f['detail'])
     return not sub.oracle_failures
+
+
+# ---- extras (round-3 lessons): large problems, extreme magnitudes -----------------------------------------------------------------------
+
+def extras(ctx):
+    """(a) LARGE problems (more than 2^22, 2^23 weights): every target is smoothed independently of how many others are requested, so a
+    subset of the targets computed alone reproduces the corresponding entries bit for bit; a constant spectrum is reproduced; the
+    direct and the matrix form agree.  (b) the smoothed spectrum is homogeneous in the amplitudes, exactly for powers of two."""
+    from eqsig.fns import frequency as fq
+    rng = ctx.rng
+    sizes = [(8192, 600)] if ctx.tier == 'quick' else [(8192, 600), (16384, 300), (4096, 1100), (2304, None)]
+    for n_fa, n_sm in sizes:
+        dt = 0.01
+        fs = np.arange(n_fa) / (2 * n_fa * dt)
+        A = np.abs(np.array([rng.gauss(0, 1) for _ in range(n_fa)])) + 0.1
+        sm = None if n_sm is None else np.exp(np.linspace(math.log(0.2), math.log(40.0), n_sm))
+        band = rng.choice([20, 40])
+        inputs = {'fa_frequencies': f'arange({n_fa})/(2*{n_fa}*0.01)', 'fa_spectrum': '|gauss|+0.1 (seeded)', 'band': band,
+                  'smooth_fa_frequencies': 'None' if sm is None else f'{n_sm} log-spaced 0.2..40 Hz', 'weights': n_fa * (n_sm or n_fa - 1)}
+        ctx.hist(f'large-problem/{n_fa}x{n_sm}')
+        ctx.count_case(('large', n_fa, n_sm, band), True, sample={'fn': 'calc_smooth_fa_spectrum (large problem)', **inputs})
+        whole = call_impl(fq.calc_smooth_fa_spectrum, fs, A, sm, band=band)
+        if whole[0] != 'ok':
+            ctx.oracle('C07 calc_smooth_fa_spectrum returns for a large problem', False, inputs, detail=whole)
+            continue
+        s = np.asarray(whole[1])
+        smv = fs[1:] if sm is None else sm
+        ctx.oracle('C07.b min|A| <= smooth_j <= max|A| (large problem)', bool(s.shape == smv.shape and np.all(s >= A[1:].min() * (1 - 1e-12)) and np.all(s <= A[1:].max() * (1 + 1e-12))),
+                   inputs, detail={'shape': s.shape, 'min': float(s.min()) if s.size else None, 'max': float(s.max()) if s.size else None})
+        idx = sorted(set([0, 1, len(smv) // 2, len(smv) - 2, len(smv) - 1] + [rng.randrange(len(smv)) for _ in range(20)]))
+        sub = np.asarray(fq.calc_smooth_fa_spectrum(fs, A, smv[idx], band=band))
+        ok = s.shape == smv.shape and bool(np.array_equal(sub, s[idx]))
+        ctx.oracle('C07 every target is smoothed independently: a subset of the targets computed alone == the same entries of the large result (==)', ok, inputs,
+                   detail=None if ok else {'targets': idx, 'alone': sub, 'in_large_result': s[idx] if s.shape == smv.shape else s.shape})
+        const = np.asarray(fq.calc_smooth_fa_spectrum(fs, np.full(n_fa, 2.5), sm, band=band))
+        ctx.oracle('C07.b a constant spectrum is reproduced (large problem)', bool(const.shape == smv.shape and np.all(np.abs(const - 2.5) <= 1e-11)), inputs,
+                   detail={'min': float(const.min()) if const.size else None, 'max': float(const.max()) if const.size else None})
+        if n_sm is not None:
+            M = fq.calc_smoothing_matrix_konno_1998(fs, sm, band=band)
+            viaM = np.asarray(fq.calc_smooth_fa_spectrum_w_custom_matrix(type('O', (), {'fa_spectrum': A})(), M))
+            ctx.oracle('C07.c matrix form == direct form (large problem, 1e-12)', bool(viaM.shape == s.shape and np.all(np.abs(viaM - s) <= 1e-12 * A.max())), inputs)
+    for it in range(4 if ctx.tier == 'quick' else 30):
+        n_fa = rng.choice([17, 64, 129])
+        fs = np.arange(n_fa) / (2 * n_fa * 0.01)
+        A = np.abs(np.array([rng.gauss(0, 1) for _ in range(n_fa)])) + 0.01
+        sm = np.exp(np.linspace(math.log(0.5), math.log(30.0), 9))
+        base = np.asarray(fq.calc_smooth_fa_spectrum(fs, A, sm))
+        for k in gen.EXTREME_POW2:
+            sc = 2.0 ** k
+            ctx.hist(f'extreme-scale/2^{k}')
+            r = call_impl(fq.calc_smooth_fa_spectrum, fs, A * sc, sm)
+            ctx.oracle('C07.b smooth(2^k A) == 2^k smooth(A) exactly, also at extreme scales', r[0] == 'ok' and gen.scaled_exactly(np.asarray(r[1]), base, sc),
+                       {'fa_frequencies': fs, 'fa_spectrum': A, 'smooth_fa_frequencies': sm, 'scale': f'2**{k}'})
+
+
+_run_main = run
+
+
+def run(ctx):
+    _run_main(ctx)
+    extras(ctx)
+    ctx.flush()
